@@ -15,8 +15,11 @@ import (
 	"math/big"
 	"net"
 	"os"
+	"runtime"
+	"runtime/debug"
 	"strings"
 	"sync"
+	"sync/atomic"
 	"time"
 
 	"github.com/markkurossi/mpc/circuit"
@@ -424,6 +427,7 @@ func c10GenCircuit(c *Ctx, r *RNG, n int, which int) *c10Circ {
 			params := utils.NewParams()
 			params.Target = utils.TargetGMW
 			params.Warn.DisableAll()
+			params.OptPruneGates = r.Bool() // door: apps/garbled -O
 			var circ *circuit.Circuit
 			var err error
 			msg := c10Try(func() { circ, _, err = compiler.New(params).Compile(src, nil) })
@@ -480,12 +484,13 @@ type c10Get struct {
 }
 
 type c10PartyResult struct {
-	outs   [][]*big.Int // results of the runs of a sequence
-	out    []*big.Int
-	gets   []c10Get
-	err    error
-	step   string
-	filled uint64 // Pool.NumTriples once the generator stopped producing
+	aborted atomic.Bool  // the party has returned with an error
+	outs    [][]*big.Int // results of the runs of a sequence
+	out     []*big.Int
+	gets    []c10Get
+	err     error
+	step    string
+	filled  uint64 // Pool.NumTriples once the generator stopped producing
 }
 
 type c10Plan struct {
@@ -502,7 +507,19 @@ type c10Plan struct {
 	waitFill bool
 	// seq: several Run calls on the one connected network (network reuse)
 	seq []c10SeqRun
+	// doors: less-travelled ways into the same functionality, chosen at random
+	// per network (see notes/C10-findings.md, table Doors)
+	doors uint64
 }
+
+const (
+	c10DoorVerbose    = 1 << iota // Run(..., verbose = true)
+	c10DoorNewNetwork             // leader built with gmw.NewNetwork on a listener of the harness
+	c10DoorEarlyJoin              // party 1 tries JoinNetwork before the leader exists (error), then again
+	c10DoorOneProc                // GOMAXPROCS(1) while the network runs
+	c10DoorGC                     // GC percent 1 while the network runs
+	c10DoorKeepDst                // drain: Pool.Get appends to a non-empty Triples
+)
 
 type c10SeqRun struct {
 	circ   *circuit.Circuit
@@ -546,9 +563,25 @@ func c10RunNetwork(p *c10Plan) (res []c10PartyResult, stalled bool, retry bool) 
 	var barrier sync.WaitGroup // drain: nobody closes before everybody has its triples
 	barrier.Add(p.n)
 	leaderUp := make(chan struct{})
+	earlyDone := make(chan struct{})
+	if p.doors&c10DoorEarlyJoin == 0 || p.n < 2 {
+		close(earlyDone)
+	}
+	if p.doors&c10DoorOneProc != 0 {
+		defer runtime.GOMAXPROCS(runtime.GOMAXPROCS(1))
+	}
+	if p.doors&c10DoorGC != 0 {
+		defer debug.SetGCPercent(debug.SetGCPercent(1))
+	}
+	verbose := p.doors&c10DoorVerbose != 0
 	party := func(id int) {
 		defer wg.Done()
 		r := &res[id]
+		defer func() {
+			if r.err != nil {
+				r.aborted.Store(true)
+			}
+		}()
 		arrived := false
 		arrive := func() {
 			if !arrived {
@@ -562,9 +595,29 @@ func c10RunNetwork(p *c10Plan) (res []c10PartyResult, stalled bool, retry bool) 
 		c10Sleep(p.delays[id][0])
 		r.step = "create/join"
 		if id == 0 {
-			nw, err = gmw.CreateNetwork(addrs[0], p.n)
+			<-earlyDone
+			if p.doors&c10DoorNewNetwork != 0 {
+				var l net.Listener
+				l, err = net.Listen("tcp", addrs[0])
+				if err == nil {
+					nw = gmw.NewNetwork(p.n, l, &gmw.Peer{})
+				}
+			} else {
+				nw, err = gmw.CreateNetwork(addrs[0], p.n)
+			}
 			close(leaderUp)
 		} else {
+			if id == 1 && p.doors&c10DoorEarlyJoin != 0 {
+				// nobody listens at the leader's address yet: an error, not a hang
+				if enw, eerr := gmw.JoinNetwork(addrs[0], addrs[id], id); eerr == nil {
+					enw.Close()
+					close(earlyDone)
+					r.step = "api:JoinNetwork-before-leader:no-error"
+					r.err = fmt.Errorf("JoinNetwork succeeded although nothing listens at the leader's address")
+					return
+				}
+				close(earlyDone)
+			}
 			<-leaderUp
 			nw, err = gmw.JoinNetwork(addrs[0], addrs[id], id)
 		}
@@ -578,6 +631,24 @@ func c10RunNetwork(p *c10Plan) (res []c10PartyResult, stalled bool, retry bool) 
 			r.err = err
 			return
 		}
+		if nw.NumParties() != p.n {
+			r.step = "api:NumParties"
+			r.err = fmt.Errorf("NumParties() = %d after Connect, %d parties", nw.NumParties(), p.n)
+			return
+		}
+		if is := nw.InputSizes(); len(is) != p.n {
+			r.step = "api:InputSizes"
+			r.err = fmt.Errorf("InputSizes() has %d entries after Connect, %d parties", len(is), p.n)
+			return
+		} else {
+			for q := 0; q < p.n; q++ {
+				if len(is[q]) != 1 || is[q][0] != int(p.circ.Inputs[q].Type.Bits) {
+					r.step = "api:InputSizes"
+					r.err = fmt.Errorf("party %d: InputSizes()[%d] = %v after Connect, party %d passed [%d]", id, q, is[q], q, p.circ.Inputs[q].Type.Bits)
+					return
+				}
+			}
+		}
 		c10Sleep(p.delays[id][2])
 		if p.waitFill {
 			r.step = "wait-filled"
@@ -587,13 +658,27 @@ func c10RunNetwork(p *c10Plan) (res []c10PartyResult, stalled bool, retry bool) 
 			r.step = "get"
 			tr := new(gmw.Triples)
 			for gi, cnt := range p.counts {
+				// door: the destination still holds the words of the previous Get
+				pw := tr.Words
+				pa := append([]uint64(nil), tr.A[:pw]...)
+				pb := append([]uint64(nil), tr.B[:pw]...)
+				pc := append([]uint64(nil), tr.C[:pw]...)
 				nw.Pool.Get(cnt, tr)
-				g := c10Get{Words: tr.Words}
-				g.A = append([]uint64(nil), tr.A[:tr.Words]...)
-				g.B = append([]uint64(nil), tr.B[:tr.Words]...)
-				g.C = append([]uint64(nil), tr.C[:tr.Words]...)
+				for w := 0; w < pw; w++ {
+					if tr.Words < pw || tr.A[w] != pa[w] || tr.B[w] != pb[w] || tr.C[w] != pc[w] {
+						r.step = "api:Triples.Append:dst-nonempty"
+						r.err = fmt.Errorf("Get #%d (count %d) into a Triples holding %d words changed word %d of them", gi, cnt, pw, w)
+						return
+					}
+				}
+				g := c10Get{Words: tr.Words - pw}
+				g.A = append([]uint64(nil), tr.A[pw:tr.Words]...)
+				g.B = append([]uint64(nil), tr.B[pw:tr.Words]...)
+				g.C = append([]uint64(nil), tr.C[pw:tr.Words]...)
 				r.gets = append(r.gets, g)
-				tr.Clear()
+				if p.doors&c10DoorKeepDst == 0 || gi%2 == 1 || tr.Words > 300 {
+					tr.Clear()
+				}
 				if (gi+id)%3 == 0 {
 					c10Sleep(p.delays[id][2] / 4)
 				}
@@ -603,9 +688,15 @@ func c10RunNetwork(p *c10Plan) (res []c10PartyResult, stalled bool, retry bool) 
 		} else if len(p.seq) > 0 {
 			for k, sr := range p.seq {
 				r.step = fmt.Sprintf("run%d", k)
-				o, err := nw.Run(sr.inputs[id], sr.circ, false)
+				before := new(big.Int).Set(sr.inputs[id])
+				o, err := nw.Run(sr.inputs[id], sr.circ, verbose && k%2 == 0)
 				if err != nil {
 					r.err = err
+					return
+				}
+				if before.Cmp(sr.inputs[id]) != 0 {
+					r.step = "api:Run-changes-its-input"
+					r.err = fmt.Errorf("run %d: the input big.Int was %s before Run and is %s after", k, before.Text(16), sr.inputs[id].Text(16))
 					return
 				}
 				r.outs = append(r.outs, o)
@@ -615,9 +706,20 @@ func c10RunNetwork(p *c10Plan) (res []c10PartyResult, stalled bool, retry bool) 
 			}
 		} else {
 			r.step = "run"
-			r.out, err = nw.Run(p.inputs[id], p.circ, false)
+			before := new(big.Int).Set(p.inputs[id])
+			r.out, err = nw.Run(p.inputs[id], p.circ, verbose)
 			if err != nil {
 				r.err = err
+				return
+			}
+			if before.Cmp(p.inputs[id]) != 0 {
+				r.step = "api:Run-changes-its-input"
+				r.err = fmt.Errorf("the input big.Int was %s before Run and is %s after", before.Text(16), p.inputs[id].Text(16))
+				return
+			}
+			if on, off := nw.Stats(); on.Sum() == 0 || off.Sum() == 0 {
+				r.step = "api:Stats"
+				r.err = fmt.Errorf("Stats() after Run: online %d bytes, offline %d bytes", on.Sum(), off.Sum())
 				return
 			}
 		}
@@ -636,17 +738,63 @@ func c10RunNetwork(p *c10Plan) (res []c10PartyResult, stalled bool, retry bool) 
 	}
 	done := make(chan struct{})
 	go func() { wg.Wait(); close(done) }()
+	// a party that stopped with an error leaves its peers blocked: do not wait
+	// for the watchdog then
+	failed := make(chan struct{})
+	go func() {
+		for {
+			select {
+			case <-done:
+				return
+			case <-time.After(200 * time.Millisecond):
+			}
+			for i := range res {
+				if res[i].aborted.Load() {
+					close(failed)
+					return
+				}
+			}
+		}
+	}()
 	select {
 	case <-done:
+	case <-failed:
+		select {
+		case <-done:
+			return res, false, c10AddrInUse(res)
+		case <-time.After(2 * time.Second):
+		}
+		// the other parties are blocked on the failed one: report them with
+		// the failing party's step (their goroutines are abandoned)
+		out := make([]c10PartyResult, p.n)
+		var ferr error
+		fstep := ""
+		for i := range res {
+			if res[i].aborted.Load() {
+				ferr, fstep = res[i].err, res[i].step
+			}
+		}
+		for i := range res {
+			if res[i].aborted.Load() {
+				out[i].err, out[i].step = res[i].err, res[i].step
+			} else {
+				out[i].err, out[i].step = fmt.Errorf("blocked: a peer stopped with: %v", ferr), fstep
+			}
+		}
+		return out, false, c10AddrInUse(out)
 	case <-time.After(p.timeout):
 		return res, true, false
 	}
+	return res, false, c10AddrInUse(res)
+}
+
+func c10AddrInUse(res []c10PartyResult) bool {
 	for i := range res {
 		if res[i].err != nil && strings.Contains(res[i].err.Error(), "address already in use") {
-			return res, false, true
+			return true
 		}
 	}
-	return res, false, false
+	return false
 }
 
 // ---------------------------------------------------------------- encoding
@@ -884,6 +1032,9 @@ func runC10(c *Ctx) error {
 		}
 		circ := cc.circ
 		circ.AssignLevels(utils.TargetGMW)
+		if r.Bool() {
+			circ.AssignLevels(utils.TargetGMW) // door: levelled twice (idempotent)
+		}
 		sizes := make([]int, n)
 		total := 0
 		for p := 0; p < n; p++ {
@@ -913,6 +1064,11 @@ func runC10(c *Ctx) error {
 			// Run reads inputs through Bit(i), it must behave identically
 			if r.Bool() {
 				v = negRep(v, sizes[p])
+			} else if r.Intn(3) == 0 {
+				// door: a value wider than the argument; only the low Bits bits count
+				g := new(big.Int).SetUint64(r.U64() | 1)
+				v = new(big.Int).Or(v, g.Lsh(g, uint(sizes[p])))
+				c.Hist("inputs:wider-than-the-argument")
 			}
 			inputs[p] = v
 			if sj != nil {
@@ -1028,16 +1184,23 @@ func runC10(c *Ctx) error {
 		// ------------------------------------------------ online run
 		var res []c10PartyResult
 		var stalled bool
+		onlineDoors := r.U64() & r.U64()
+		drainDoors := r.U64() & (r.U64() | c10DoorKeepDst)
 		for attempt := 0; attempt < 4; attempt++ {
 			d, order := mkDelays()
 			var retry bool
-			res, stalled, retry = c10RunNetwork(&c10Plan{n: n, circ: circ, inputs: inputs, delays: d, order: order, timeout: timeout})
+			res, stalled, retry = c10RunNetwork(&c10Plan{n: n, circ: circ, inputs: inputs, delays: d, order: order, timeout: timeout, doors: onlineDoors})
 			if !retry {
 				break
 			}
 			c.Hist("harness:port-retry")
 		}
 		c.Eval("online|"+keyBase, nontrivial)
+		for b, nm := range []string{"Run-verbose", "NewNetwork-leader", "JoinNetwork-before-leader-then-retry", "GOMAXPROCS=1", "GC-percent=1"} {
+			if onlineDoors&(1<<uint(b)) != 0 {
+				c.Hist("door:" + nm)
+			}
+		}
 		ok := true
 		outsx := make([]SX, n)
 		var gotStr []string
@@ -1153,7 +1316,7 @@ func runC10(c *Ctx) error {
 		for attempt := 0; attempt < 4; attempt++ {
 			d, order := mkDelays()
 			var retry bool
-			res, stalled, retry = c10RunNetwork(&c10Plan{n: n, circ: circ, drain: true, counts: dcounts, delays: d, order: order, timeout: timeout})
+			res, stalled, retry = c10RunNetwork(&c10Plan{n: n, circ: circ, drain: true, counts: dcounts, delays: d, order: order, timeout: timeout, doors: drainDoors})
 			if !retry {
 				break
 			}
@@ -1275,6 +1438,7 @@ func runC10(c *Ctx) error {
 	if err := c10CLI(c); err != nil {
 		return err
 	}
+	c10Overlap(c, timeout)
 	return c10Wide(c, timeout)
 }
 
@@ -1675,6 +1839,7 @@ func c10Reuse(c *Ctx, timeout time.Duration) error {
 		}
 		var res []c10PartyResult
 		var stalled bool
+		seqDoors := r.U64() & r.U64()
 		for attempt := 0; attempt < 4; attempt++ {
 			d := make([][]int, n)
 			for p := range d {
@@ -1685,7 +1850,7 @@ func c10Reuse(c *Ctx, timeout time.Duration) error {
 				order = []int{2, 1}
 			}
 			var retry bool
-			res, stalled, retry = c10RunNetwork(&c10Plan{n: n, circ: runs[0].circ, inputs: runs[0].inputs, delays: d, order: order, timeout: timeout, seq: runs})
+			res, stalled, retry = c10RunNetwork(&c10Plan{n: n, circ: runs[0].circ, inputs: runs[0].inputs, delays: d, order: order, timeout: timeout, seq: runs, doors: seqDoors})
 			if !retry {
 				break
 			}
@@ -1800,4 +1965,109 @@ func c10Reuse(c *Ctx, timeout time.Duration) error {
 		c.Case(L(I(4), I(n), L(jobs...), L(batches...), c10PoolsSX(r, n, len(batches))), L(L(outsx...), L(plainsx...)))
 	}
 	return nil
+}
+
+// ---------------------------------------------------------------- overlapping networks
+
+// c10Overlap: two networks of this process run at the same time (package
+// state must not be shared), one of them on a circuit levelled with
+// AssignLevels(TargetYao) — every gate its own topological level, a legal if
+// slower schedule for Network.run.  Oracle only.
+func c10Overlap(c *Ctx, timeout time.Duration) {
+	r := c.rng.Fork()
+	type job struct {
+		n      int
+		cc     *c10Circ
+		inputs []*big.Int
+		want   string
+		res    []c10PartyResult
+		stall  bool
+		retry  bool
+		doors  uint64
+	}
+	mk := func(n int, yao bool) *job {
+		cc := c10Levelled(r, n, []int{r.Range(1, 40), r.Range(1, 70), r.Range(1, 40)}, false)
+		if yao {
+			cc.circ.AssignLevels(utils.TargetYao)
+			cc.kind += "+levelled-for-TargetYao"
+		} else {
+			cc.circ.AssignLevels(utils.TargetGMW)
+		}
+		j := &job{n: n, cc: cc, doors: r.U64() & r.U64() &^ (c10DoorOneProc | c10DoorGC)}
+		for p := 0; p < n; p++ {
+			v := new(big.Int)
+			for b := 0; b < int(cc.circ.Inputs[p].Type.Bits); b++ {
+				if r.Intn(4) != 0 {
+					v.SetBit(v, b, 1)
+				}
+			}
+			j.inputs = append(j.inputs, v)
+		}
+		w, _ := cc.circ.Compute(j.inputs)
+		j.want = bitsString(JoinOutputs(cc.circ, w))
+		return j
+	}
+	jobs := []*job{mk(2, true), mk(3, false)}
+	for attempt := 0; attempt < 3; attempt++ {
+		var wg sync.WaitGroup
+		for _, j := range jobs {
+			wg.Add(1)
+			go func(j *job) {
+				defer wg.Done()
+				d := make([][]int, j.n)
+				for p := range d {
+					d[p] = []int{0, 0, 0, 0}
+				}
+				order := []int{1}
+				if j.n == 3 {
+					order = []int{2, 1}
+				}
+				j.res, j.stall, j.retry = c10RunNetwork(&c10Plan{n: j.n, circ: j.cc.circ, inputs: j.inputs, delays: d, order: order, timeout: timeout, doors: j.doors})
+			}(j)
+		}
+		wg.Wait()
+		if !jobs[0].retry && !jobs[1].retry {
+			break
+		}
+	}
+	for _, j := range jobs {
+		var inStr []string
+		for _, v := range j.inputs {
+			inStr = append(inStr, v.Text(16))
+		}
+		c.Eval(fmt.Sprintf("overlap|%d|%s|%v", j.n, circuitText(j.cc.circ), inStr), true)
+		c.Hist("kind:overlapping-networks:" + j.cc.kind)
+		rp := c10Replay{Seed: c.Seed, Case: -3, Parties: j.n, Kind: "overlapping-networks:" + j.cc.kind, Inputs: inStr, Want: j.want}
+		if len(j.cc.circ.Gates) <= 400 {
+			rp.Circuit = circuitText(j.cc.circ)
+		}
+		if j.stall {
+			c.Fail("c10:overlapping-networks:stalled", "GMW network stalled while another network of the process was running", rp)
+			continue
+		}
+		var got []string
+		bad := false
+		for p := range j.res {
+			if j.res[p].err != nil {
+				rq := rp
+				rq.Detail = fmt.Sprintf("party %d failed at %s: %v", p, j.res[p].step, j.res[p].err)
+				c.Fail(fmt.Sprintf("c10:overlapping-networks:error:%s", j.res[p].step), "GMW party returned an error", rq)
+				bad = true
+				break
+			}
+			g := bitsString(JoinOutputs(j.cc.circ, j.res[p].out))
+			got = append(got, g)
+			if g != j.want {
+				bad = true
+			}
+		}
+		if bad && len(got) == j.n {
+			rp.Got = got
+			key := "c10:overlapping-networks:wrong-output"
+			if strings.Contains(j.cc.kind, "TargetYao") {
+				key = "c10:levels:levelled-for-TargetYao:wrong-output"
+			}
+			c.Fail(key, "a party's GMW output differs from Circuit.Compute", rp)
+		}
+	}
 }
